@@ -54,19 +54,19 @@ def head (major n : Nat) : Bytes :=
 def takeN (k : Nat) (bs : Bytes) : Option (Bytes × Bytes) :=
   if k ≤ bs.length then some (bs.take k, bs.drop k) else none
 
-/-- Decode a head (any width, not only the shortest): `(major, argument, rest)`.
-Additional information 28..31 (reserved / indefinite length) is rejected. -/
-def decodeHead : Bytes → Option (Nat × Nat × Bytes)
+/-- Decode a head (any width, not only the shortest): `(major, additional info, argument, rest)`.
+Additional information 28..31 (reserved / indefinite length / break) is rejected. -/
+def decodeHead : Bytes → Option (Nat × Nat × Nat × Bytes)
   | [] => none
   | b :: rest =>
     let major := b.toNat / 32
     let ai := b.toNat % 32
-    if ai < 24 then some (major, ai, rest)
+    if ai < 24 then some (major, ai, ai, rest)
     else
       let width := if ai = 24 then 1 else if ai = 25 then 2 else if ai = 26 then 4 else if ai = 27 then 8 else 0
       if width = 0 then none
       else match takeN width rest with
-        | some (arg, rest') => some (major, fromBE arg, rest')
+        | some (arg, rest') => some (major, ai, fromBE arg, rest')
         | none => none
 
 mutual
@@ -79,7 +79,7 @@ def Cbor.encode : Cbor → Bytes
   | .array xs => head 4 xs.length ++ encodeList xs
   | .map kvs => head 5 kvs.length ++ encodePairs kvs
   | .tag t v => head 6 t ++ v.encode
-  | .simple n => [UInt8.ofNat (224 + n)]
+  | .simple n => head 7 n
 def encodeList : List Cbor → Bytes
   | [] => []
   | x :: xs => x.encode ++ encodeList xs
@@ -94,38 +94,34 @@ always suffices, see `decodeAll`). -/
 def decode : Nat → Bytes → Option (Cbor × Bytes)
   | 0, _ => none
   | fuel + 1, bs =>
-    match bs with
-    | [] => none
-    | b :: _ =>
-      if b.toNat / 32 = 7 then
-        -- simple values; floats (25..27), the one-byte extension (24) and break (31) are rejected
-        if b.toNat % 32 < 24 then some (.simple (b.toNat % 32), bs.drop 1) else none
-      else
-        match decodeHead bs with
+    match decodeHead bs with
+    | none => none
+    | some (major, ai, n, rest) =>
+      if major = 0 then some (.uint n, rest)
+      else if major = 1 then some (.nint n, rest)
+      else if major = 2 then
+        match takeN n rest with
+        | some (s, r) => some (.bytes s, r)
         | none => none
-        | some (major, n, rest) =>
-          if major = 0 then some (.uint n, rest)
-          else if major = 1 then some (.nint n, rest)
-          else if major = 2 then
-            match takeN n rest with
-            | some (s, r) => some (.bytes s, r)
-            | none => none
-          else if major = 3 then
-            match takeN n rest with
-            | some (s, r) => some (.text s, r)
-            | none => none
-          else if major = 4 then
-            match decodeList fuel n rest with
-            | some (xs, r) => some (.array xs, r)
-            | none => none
-          else if major = 5 then
-            match decodePairs fuel n rest with
-            | some (kvs, r) => some (.map kvs, r)
-            | none => none
-          else
-            match decode fuel rest with
-            | some (v, r) => some (.tag n v, r)
-            | none => none
+      else if major = 3 then
+        match takeN n rest with
+        | some (s, r) => some (.text s, r)
+        | none => none
+      else if major = 4 then
+        match decodeList fuel n rest with
+        | some (xs, r) => some (.array xs, r)
+        | none => none
+      else if major = 5 then
+        match decodePairs fuel n rest with
+        | some (kvs, r) => some (.map kvs, r)
+        | none => none
+      else if major = 6 then
+        match decode fuel rest with
+        | some (v, r) => some (.tag n v, r)
+        | none => none
+      else
+        -- major 7: simple values 0..23 only; the one-byte extension (24), floats (25..27) are rejected
+        if ai < 24 then some (.simple n, rest) else none
 def decodeList : Nat → Nat → Bytes → Option (List Cbor × Bytes)
   | _, 0, bs => some ([], bs)
   | 0, _ + 1, _ => none
@@ -198,7 +194,7 @@ def sizePairs : List (Cbor × Cbor) → Nat
   | (k, v) :: kvs => 1 + (k.size + (v.size + sizePairs kvs))
 end
 
-/-- Structural equality on data items (used by the driver and by map-key lookup). -/
+-- Structural equality on data items (used by the driver and by map-key lookup).
 mutual
 def Cbor.beq : Cbor → Cbor → Bool
   | .uint a, .uint b => a == b
